@@ -21,19 +21,19 @@ type Oblig struct {
 
 // State is the symbolic state along one path.
 type State struct {
-	ex       *Exec
-	asm      []Term
-	locals   map[*ssa.Alloc]Value
-	regs     map[ssa.Value]Value
-	heaps    map[string]Term
-	epoch    int
-	allocTop Term
-	ghost    map[string]Value // ghost globals and ghost loop variables
-	ranged   map[string]bool
-	defers   []*ssa.Defer
-	rangeIt  map[ssa.Value]*rangeIter
-	visits   map[*ssa.BasicBlock]int
-	depth    int
+	ex           *Exec
+	asm          []Term
+	locals       map[*ssa.Alloc]Value
+	regs         map[ssa.Value]Value
+	heaps        map[string]Term
+	epoch        int
+	allocTop     Term
+	ghost        map[string]Value // ghost globals and ghost loop variables
+	ranged       map[string]bool
+	defers       []*ssa.Defer
+	rangeIt      map[ssa.Value]*rangeIter
+	visits       map[*ssa.BasicBlock]int
+	depth        int
 	discoverLoop *loopInfo
 	loopHeads    map[*ssa.BasicBlock]*State
 	euclidSeen   map[string]bool
@@ -372,7 +372,6 @@ func (st *State) havocAll() {
 	st.assume(tGe(top, st.allocTop))
 	st.allocTop = top
 }
-
 
 // derefPtr turns a pointer value into a location.
 func (st *State) derefPtr(v Value, pointee types.Type) Loc {
